@@ -24,6 +24,7 @@
 package c12
 
 import (
+	"bytes"
 	"context"
 	"errors"
 	"fmt"
@@ -35,7 +36,6 @@ import (
 	"time"
 
 	kafka "github.com/segmentio/kafka-go"
-	"github.com/segmentio/kafka-go/sasl/plain"
 	"github.com/segmentio/kafka-go/protocol"
 	"github.com/segmentio/kafka-go/protocol/addoffsetstotxn"
 	"github.com/segmentio/kafka-go/protocol/addpartitionstotxn"
@@ -54,12 +54,15 @@ import (
 	"github.com/segmentio/kafka-go/protocol/offsetdelete"
 	"github.com/segmentio/kafka-go/protocol/offsetfetch"
 	"github.com/segmentio/kafka-go/protocol/produce"
+	"github.com/segmentio/kafka-go/protocol/rawproduce"
 	"github.com/segmentio/kafka-go/protocol/syncgroup"
 	"github.com/segmentio/kafka-go/protocol/txnoffsetcommit"
+	"github.com/segmentio/kafka-go/sasl/plain"
 
 	"verif/fakecluster"
 	"verif/internal/ev"
 	"verif/memnet"
+	"verif/refcodec"
 )
 
 func TestMain(m *testing.M) { ev.Main(m, "C12") }
@@ -117,6 +120,9 @@ type step struct {
 	Par    int      `json:"par,omitempty"`
 	Acks   int16    `json:"acks,omitempty"`
 	Client bool     `json:"client,omitempty"` // go through a kafka.Client method instead of RoundTrip
+	// Raw (produce): the request is a rawproduce.Request (what Client.RawProduce sends: pre-encoded records, a routing
+	// method of its own)
+	Raw bool `json:"raw,omitempty"`
 	// Validate (create): ValidateOnly is set, the controller checks the request and creates nothing
 	Validate bool        `json:"validate,omitempty"`
 	Broker   *brokerSpec `json:"broker,omitempty"`
@@ -412,7 +418,7 @@ type stepObs struct {
 	Err           error
 	TimedOut      bool
 	ProbeAt       time.Time // when the probe before the step was started
-	Meta          string // metadata step: canonical form of the result
+	Meta          string    // metadata step: canonical form of the result
 	MetaOK        bool
 	CoordTruth    map[string]int32 // coordinator of the keys used by the step, at step start
 	Truth         *snapshot        // the cluster's layout at step start (request steps)
@@ -593,6 +599,15 @@ func (w *world) call(s step) (err error, metaCanon string, metaOK bool) {
 	}
 	switch s.Op {
 	case "produce":
+		if s.Raw {
+			return par(func() kafka.Request {
+				var ps []rawproduce.RequestPartition
+				for _, p := range s.Parts {
+					ps = append(ps, rawproduce.RequestPartition{Partition: p, RecordSet: protocol.RawRecordSet{Reader: bytes.NewReader(rawRecords)}})
+				}
+				return &rawproduce.Request{Acks: s.Acks, Timeout: 1000, Topics: []rawproduce.RequestTopic{{Topic: s.Topic, Partitions: ps}}}
+			}), "", false
+		}
 		return par(func() kafka.Request {
 			var ps []produce.RequestPartition
 			for _, p := range s.Parts {
@@ -1631,3 +1646,13 @@ func run(tb ev.TB, c routeCase) *outcome {
 	}
 	return out
 }
+
+// rawRecords: one well-formed v2 batch with one record, encoded by the reference codec (for rawproduce requests).
+var rawRecords = func() []byte {
+	rs := &refcodec.RecordSet{Batches: []refcodec.Batch{refcodec.MakeBatchV2([]refcodec.Record{{Offset: 0, Timestamp: 1, Key: []byte("k"), Value: []byte("v")}}, 0)}}
+	b, err := rs.Encode()
+	if err != nil {
+		panic(err)
+	}
+	return b
+}()
